@@ -9,7 +9,7 @@ if [ -n "$(git status --porcelain)" ]; then echo "refusing: /repo has uncommitte
 trap 'git -C /repo checkout -- . ; git -C /repo clean -fdq -- zvt zvt_builder zvt_derive zvt_feig_terminal zvt_cli 2>/dev/null' EXIT
 git apply "$PATCH" || { echo "patch does not apply"; exit 2; }
 for ID in "$@"; do
-    OUT=$(VERIF_REPLAY_DIR_SUFFIX=.mut /verif/run.sh "$ID" "$TIER" 2>&1); CODE=$?
+    OUT=$(VERIF_OUT_DIR=/dev/shm/verif_mut_out /verif/run.sh "$ID" "$TIER" 2>&1); CODE=$?
     RULE=$(echo "$OUT" | grep -m1 "rule=" | cut -c1-200)
     echo "$ID exit=$CODE $RULE"
 done
